@@ -914,6 +914,29 @@ def gen_service_config(rng, spec, p_named=0.7):
     return {"methodConfig": entries}
 
 
+def twin_spec(rng, spec):
+    """The SAME API with edited option files: what a persistent build worker sees when a service config or a
+    service YAML was changed between two builds.  Used as the decoy of process-reuse worlds: state keyed by
+    anything but the CONTENT of an option file (object identity, path, package name) leaks here."""
+    import copy
+    twin = copy.deepcopy(spec)
+    if twin.get("service_config") is not None or rng.random() < 0.3:
+        twin["service_config"] = gen_service_config(rng, twin, p_named=rng.choice([0.4, 0.7, 1.0]))
+    y = twin.get("service_yaml")
+    if y:
+        rules = (y.get("http") or {}).get("rules")
+        if rules and rng.random() < 0.6:
+            rng.shuffle(rules)
+            if len(rules) > 1 and rng.random() < 0.5:
+                rules.pop()
+        if y.get("apis") and len(y["apis"]) > 1 and rng.random() < 0.4:
+            y["apis"].pop(rng.randrange(len(y["apis"])))
+        ms = (y.get("publishing") or {}).get("method_settings")
+        if ms and rng.random() < 0.6:
+            ms.pop(rng.randrange(len(ms)))
+    return twin
+
+
 MIXIN_RULES = {
     "google.longrunning.Operations": {
         "ListOperations": {"get": "/v1/{name=projects/*}/operations"},
